@@ -138,6 +138,48 @@ func c15Jobs() []c15Job {
 	return jobs
 }
 
+// c15TZJobs: jobs run only in fresh processes, each under several process time zones (the TZ variable): the
+// process's zone is not among (schema, input, externals). Values without a zone that fall into the hour a
+// zone with daylight saving skips or repeats (New York 2021-03-14 / 2021-11-07, London 2021-03-28 / 2021-10-31,
+// Lord Howe 2021-10-03), through the smart parser and through explicit layouts, with and without fromTZ / toTZ.
+func c15TZJobs() []c15Job {
+	h := `"parser_settings":{"version":"omni.2.1","file_format_type":"csv"}`
+	return []c15Job{{Name: "tz/csv-datetime-in-skipped-and-repeated-hours", Schema: `{` + h + `,"file_declaration":{"delimiter":"|","data_row_index":1,"columns":[{"name":"D"},{"name":"TZ"}]},"transform_declarations":{"FINAL_OUTPUT":{"object":{` +
+		`"smart":{"custom_func":{"name":"dateTimeToRFC3339","ignore_error":true,"args":[{"xpath":"D"},{"xpath":"TZ"},{"const":""}]}},` +
+		`"smart_to":{"custom_func":{"name":"dateTimeToRFC3339","ignore_error":true,"args":[{"xpath":"D"},{"xpath":"TZ"},{"const":"Asia/Tokyo"}]}},` +
+		`"layout":{"custom_func":{"name":"dateTimeLayoutToRFC3339","ignore_error":true,"args":[{"xpath":"D"},{"const":"2006-01-02 15:04:05"},{"const":"false"},{"xpath":"TZ"},{"const":""}]}},` +
+		`"layout_to":{"custom_func":{"name":"dateTimeLayoutToRFC3339","ignore_error":true,"args":[{"xpath":"D"},{"const":"2006-01-02 15:04:05"},{"const":"false"},{"xpath":"TZ"},{"const":"Asia/Tokyo"}]}},` +
+		`"epoch":{"custom_func":{"name":"dateTimeToEpoch","ignore_error":true,"args":[{"xpath":"D"},{"xpath":"TZ"},{"const":"SECOND"}]}},` +
+		`"back":{"custom_func":{"name":"epochToDateTimeRFC3339","ignore_error":true,"args":[{"custom_func":{"name":"dateTimeToEpoch","args":[{"xpath":"D"},{"xpath":"TZ"},{"const":"SECOND"}]}},{"const":"SECOND"}]}}` +
+		`}}}}`,
+		Input: "2021-03-14 02:30:00|\n2021-03-14 02:30:00|America/New_York\n2021-03-14 02:30:00|UTC\n2021-11-07 01:30:00|\n2021-11-07 01:30:00|America/Chicago\n" +
+			"2021-03-28 01:30:00|\n2021-10-31 01:30:00|\n2021-10-03 02:15:00|\n2021-10-03 02:15:00|Australia/Lord_Howe\n2021-07-01 12:00:00|\n1969-12-31 23:59:59|\n"}}
+}
+
+// c15ProbeJobs: what `mc c15probe <i>` indexes - the jobs of the histories, then the fresh-process-only jobs.
+func c15ProbeJobs() []c15Job { return append(c15Jobs(), c15TZJobs()...) }
+
+var c15Zones = []string{"UTC", "America/New_York", "Europe/London", "Australia/Lord_Howe"}
+
+// c15TZCheck runs probe job i in one fresh process per zone of c15Zones (and one with the harness's own
+// environment): all transcripts must be the same.
+func c15TZCheck(i int, name string) (sig, detail string) {
+	first, err := c15Fresh(i)
+	if err != nil {
+		return "harness:fresh-process", err.Error()
+	}
+	for _, z := range c15Zones {
+		b, err := c15Fresh(i, "TZ="+z)
+		if err != nil {
+			return "harness:fresh-process", err.Error()
+		}
+		if d := c15Diff(b, first); d != "" {
+			return "result-depends-on-the-time-zone-of-the-process:" + name, fmt.Sprintf("job %s in a fresh process with TZ=%s differs from the same job in a fresh process with the harness's environment (TZ=%q) at %s", name, z, os.Getenv("TZ"), d)
+		}
+	}
+	return "", ""
+}
+
 // c15Schemas holds the Schema objects of the current process history when schema objects are reused.
 var c15Schemas map[string]omniparser.Schema
 
@@ -193,7 +235,7 @@ func c15RunJob(j c15Job) []string {
 
 // C15Probe is the body of `mc c15probe <job index>`: run one job in a fresh process.
 func C15Probe(i int) {
-	jobs := c15Jobs()
+	jobs := c15ProbeJobs()
 	if i < 0 || i >= len(jobs) {
 		os.Exit(2)
 	}
@@ -201,10 +243,10 @@ func C15Probe(i int) {
 	os.Stdout.Write(b)
 }
 
-func c15Fresh(i int) ([]string, error) {
+func c15Fresh(i int, env ...string) ([]string, error) {
 	self, _ := os.Executable()
 	cmd := exec.Command(self, "c15probe", fmt.Sprint(i))
-	cmd.Env = append(os.Environ(), "GOMAXPROCS=2")
+	cmd.Env = append(append(os.Environ(), "GOMAXPROCS=2"), env...)
 	b, err := cmd.Output()
 	if err != nil {
 		return nil, err
@@ -221,6 +263,8 @@ type c15Case struct {
 	Probe   string   `json:"probe_job"`
 	// ReuseSchemas: jobs of the history that have the same schema text share one Schema object
 	ReuseSchemas bool `json:"reuse_schema_objects,omitempty"`
+	// Zones: the case is "probe job in fresh processes under every zone of c15Zones" (no history)
+	Zones bool `json:"fresh_process_per_time_zone,omitempty"`
 }
 
 var uuidRe = regexp.MustCompile(`[0-9a-f]{8}-[0-9a-f]{4}-[0-9a-f]{4}-[0-9a-f]{4}-[0-9a-f]{12}`)
@@ -244,9 +288,15 @@ func c15Diff(a, b []string) string {
 func c15Check(cs c15Case, base map[string][]string) (sig, detail string) {
 	jobs := map[string]c15Job{}
 	idxOf := map[string]int{}
-	for i, j := range c15Jobs() {
+	for i, j := range c15ProbeJobs() {
 		jobs[j.Name] = j
 		idxOf[j.Name] = i
+	}
+	if cs.Zones {
+		if _, ok := idxOf[cs.Probe]; !ok {
+			return "harness:bad-replay", "no job " + cs.Probe
+		}
+		return c15TZCheck(idxOf[cs.Probe], cs.Probe)
 	}
 	if base == nil {
 		base = map[string][]string{}
@@ -571,7 +621,7 @@ func init() {
 	core.Register(&core.Prop{
 		ID:    "C15",
 		Level: "exploration",
-		Rule:  "jobs = 19 (schema, input, externals) triples covering all seven formats, templates, xpath_dynamic, javascript(_with_context), copy, uuidv3, date-time functions, XML namespaces incl. one URI bound twice, typed external properties (one schema text, three property sets), dotted sibling object keys failing together, a script that throws while holding arguments and one that looks for globals it was not given, the same schema under the built-in extension, under a caller's extension that overrides 'upper', and under one that binds 'upper' to another SIGNATURE (interface{} parameter, rows with absent values); histories are run both with every job parsing its schema anew and with jobs of equal schema text sharing ONE Schema object; every history of up to 2 (thorough 3) earlier jobs followed by a probe job is run in one process (pools and caches warm, ID counter advanced; state reset only between histories) and the probe's full transcript (bytes, checksums, raw records, errors) must equal the transcript of the same job in a FRESH process (3 fresh subprocesses per job, which must also agree with each other); no emitted record may contain a UUID-shaped string that is not in the input (declaration hashes are UUIDs); checksums: every pair from a per-format record alphabet (equal content, one value changed, shape changed) must have equal checksums iff the records are equal; the same long inputs of multi-line records (5 items) handed over at once and in pieces of 1000 / 100 / 7 bytes give the same transcript; every XML record of up to 5 (thorough 6) elements over two names and three texts (no attributes, no mixed content), all in one document: records of different content (up to the order of differently named siblings) never share a checksum; distinct by (history, probe) / (format, record pair); further jobs: scripts with top-level declarations, scripts changing the global object / builtin objects (known finding), script enumerating an object argument, union xpath in an array, data-driven call depth",
+		Rule:  "jobs = 19 (schema, input, externals) triples covering all seven formats, templates, xpath_dynamic, javascript(_with_context), copy, uuidv3, date-time functions, XML namespaces incl. one URI bound twice, typed external properties (one schema text, three property sets), dotted sibling object keys failing together, a script that throws while holding arguments and one that looks for globals it was not given, the same schema under the built-in extension, under a caller's extension that overrides 'upper', and under one that binds 'upper' to another SIGNATURE (interface{} parameter, rows with absent values); histories are run both with every job parsing its schema anew and with jobs of equal schema text sharing ONE Schema object; every history of up to 2 (thorough 3) earlier jobs followed by a probe job is run in one process (pools and caches warm, ID counter advanced; state reset only between histories) and the probe's full transcript (bytes, checksums, raw records, errors) must equal the transcript of the same job in a FRESH process (3 fresh subprocesses per job, which must also agree with each other); no emitted record may contain a UUID-shaped string that is not in the input (declaration hashes are UUIDs); checksums: every pair from a per-format record alphabet (equal content, one value changed, shape changed) must have equal checksums iff the records are equal; the same long inputs of multi-line records (5 items) handed over at once and in pieces of 1000 / 100 / 7 bytes give the same transcript; every XML record of up to 5 (thorough 6) elements over two names and three texts (no attributes, no mixed content), all in one document: records of different content (up to the order of differently named siblings) never share a checksum; distinct by (history, probe) / (format, record pair); every job (and one more with zone-less date-times in the hours New York / London / Lord Howe skip or repeat, through the smart parser and an explicit layout, with and without fromTZ / toTZ, epoch and back) also runs in a fresh process under TZ=UTC, America/New_York, Europe/London, Australia/Lord_Howe: all transcripts equal (the process time zone is not among schema, input, externals); further jobs: scripts with top-level declarations, scripts changing the global object / builtin objects (known finding), script enumerating an object argument, union xpath in an array, data-driven call depth",
 		Assumptions: []string{
 			"Go map iteration order cannot be enumerated: order dependence is exposed only through repetition (every probe runs at least 100 times across histories), which is stated here rather than claimed exhaustive",
 			"the `now` function and scripts drawing randomness are excluded by the property",
@@ -652,6 +702,25 @@ func init() {
 				}
 				return !c.TimeUp()
 			})
+			// every job in a fresh process per process time zone
+			for i, j := range c15ProbeJobs() {
+				idx++
+				if !c.Mine(idx) {
+					continue
+				}
+				cs := c15Case{Probe: j.Name, Zones: true}
+				c.Begin(func() interface{} { return cs })
+				sig, detail := c15TZCheck(i, j.Name)
+				c.Eval("tz|" + j.Name)
+				c.Count("jobs_run_in_a_fresh_process_per_time_zone", 1)
+				c.Count("fresh_processes_with_a_time_zone", int64(len(c15Zones)))
+				c.Alive()
+				if strings.HasPrefix(sig, "harness:") {
+					c.HarnessError(sig + ": " + detail)
+				} else if sig != "" {
+					c.Violation(sig, detail, cs, func() string { s, _ := c15TZCheck(i, j.Name); return s })
+				}
+			}
 			// checksums
 			for name, recs := range c15Variants() {
 				for i := range recs {
